@@ -279,6 +279,16 @@ NOT_IN_ALL: Final = "NOT_IN_ALL"
 ERROR_MARKER: Final = "<ERROR>"
 
 
+def bytes_literal(value: str) -> str:
+    """Return the source form of a bytes literal from BytesExpr.value.
+
+    The value is the text between the quotes of repr(<the bytes>), which uses double
+    quotes exactly when the bytes contain a single quote and no double quote.
+    """
+    quote = '"' if "'" in value and '"' not in value else "'"
+    return f"b{quote}{value}{quote}"
+
+
 class AliasPrinter(NodeVisitor[str]):
     """Visitor used to collect type aliases _and_ type variable definitions.
 
@@ -330,7 +340,7 @@ class AliasPrinter(NodeVisitor[str]):
         return self._visit_literal_node(node)
 
     def visit_bytes_expr(self, node: BytesExpr) -> str:
-        return f"b{self._visit_literal_node(node)}"
+        return bytes_literal(node.value)
 
     def visit_int_expr(self, node: IntExpr) -> str:
         return self._visit_literal_node(node)
@@ -1472,7 +1482,7 @@ class ASTStubGenerator(BaseStubGenerator, mypy.traverser.TraverserVisitor):
         elif isinstance(rvalue, StrExpr):
             return repr(rvalue.value), True
         elif isinstance(rvalue, BytesExpr):
-            return "b" + repr(rvalue.value).replace("\\\\", "\\"), True
+            return bytes_literal(rvalue.value), True
         elif isinstance(rvalue, TupleExpr):
             items_defaults = []
             for e in rvalue.items:
